@@ -56,8 +56,39 @@ func isComposite(t types.Type) bool {
 	return false
 }
 
+// Local scalar variables of C functions whose address is never taken live in heaps of their own (H_LInt, H_LBool,
+// H_LPtr), so that `i++` does not create a new version of the heap that holds the data the function works on.
+// Their type is wrapped in a named type "loc$..." with the same underlying type.
+var localTypes = map[string]*types.Named{}
+
+func wrapLocal(t types.Type) types.Type {
+	key := t.String()
+	if n, ok := localTypes[key]; ok {
+		return n
+	}
+	n := types.NewNamed(types.NewTypeName(0, nil, "loc$"+key, nil), t.Underlying(), nil)
+	localTypes[key] = n
+	return n
+}
+
+func isLocalType(t types.Type) bool {
+	n, ok := t.(*types.Named)
+	return ok && strings.HasPrefix(n.Obj().Name(), "loc$")
+}
+
+// unwrapLocal returns the value type of a local-variable type.
+func unwrapLocal(t types.Type) types.Type {
+	if isLocalType(t) {
+		return t.Underlying()
+	}
+	return t
+}
+
 // CellSort returns the SMT sort of the single cell holding a scalar (non-composite) value of type t.
 func (L *Layout) CellSort(t types.Type) string {
+	if isLocalType(t) {
+		return "L" + L.CellSort(t.Underlying())
+	}
 	if isOpaque(t) {
 		return "Int"
 	}
@@ -109,7 +140,7 @@ func (L *Layout) CellSort(t types.Type) string {
 }
 
 // ValSort is the sort of an SSA value of type t (composite values are pointers to temp objects).
-func (L *Layout) ValSort(t types.Type) string { return L.CellSort(t) }
+func (L *Layout) ValSort(t types.Type) string { return L.CellSort(unwrapLocal(t)) }
 
 func heapName(sort string) string {
 	s := strings.NewReplacer("(_ BitVec ", "BV", ")", "", " ", "").Replace(sort)
@@ -246,6 +277,9 @@ func (L *Layout) ranges(t types.Type, base int64, out *[]CellRange) {
 
 // zero value term of a cell sort
 func (L *Layout) Zero(sort string) string {
+	if sort == "LInt" || sort == "LBool" || sort == "LPtr" {
+		return L.Zero(sort[1:])
+	}
 	switch sort {
 	case "Int", "GInt", "GOwn", "GLock":
 		return "0"
